@@ -459,6 +459,8 @@ Definition answer_explained (st : store) (f : aop) : Prop :=
   | RFail code => o_status f = code /\ spec_apply st (o_req f) = st   (* 409 / 400 / 404: nothing changes *)
   | RRead None => o_status f = 404
   | RRead (Some (k, b)) => o_status f = 200 /\ o_rkind f = k /\ o_rbody f = b
+  | RNoopDone => o_req f = RCustom   (* a request of the custom-data API: outside the replay sequence, so it
+                                        changed neither an object nor the version *)
   | _ => False
   end.
 
@@ -470,6 +472,7 @@ Proof.
   - apply andb_true_iff in H. destruct H as (H & H3). apply andb_true_iff in H. destruct H as (H1 & H2).
     apply Z.eqb_eq in H1. apply String.eqb_eq in H2. apply String.eqb_eq in H3. auto.
   - apply Z.eqb_eq in H. exact H.
+  - apply andb_true_iff in H. destruct H as (H & _). destruct (o_req f); try discriminate. reflexivity.
 Qed.
 
 (** *** soundness of [api_prop] *)
